@@ -1,6 +1,7 @@
 package mask
 
 import (
+	"slices"
 	"strconv"
 	"strings"
 
@@ -251,6 +252,15 @@ func (p *Plugin) registerMetrics(ctl *metric.Ctl) {
 				zap.String("metric_name", mask.MetricName),
 			)
 			continue
+		}
+		for j := 0; j < i; j++ {
+			// metrics are shared by name: the same name with other labels would get the first one's label set
+			if prev := &p.config.Masks[j]; prev.MetricName == mask.MetricName && !slices.Equal(prev.MetricLabels, mask.MetricLabels) {
+				p.logger.Fatal(
+					"masks with the same metric name must have the same metric labels",
+					zap.String("metric_name", mask.MetricName),
+				)
+			}
 		}
 		mask.appliedMetric = p.makeMetric(ctl,
 			mask.MetricName,
